@@ -142,6 +142,9 @@ func genC02(g *G) {
 	n := g.N(1500, 20000)
 	for i := 0; i < n; i++ {
 		f := 1 + g.R.Intn(3)
+		if i%6 == 5 {
+			f = 4 + g.R.Intn(7) // the larger networks (up to 31 oracles): lists of 13 … 31 values
+		}
 		b := g.R.Intn(f + 1)
 		h := b + 1 + g.R.Intn(2*f+2-b)
 		op := "agg.median"
@@ -182,7 +185,12 @@ func genC02(g *G) {
 		}
 		tag := []string{op, "f=" + S(f), "honestKind=" + S(hk)}
 		if len(l) > 12 {
+			// sort.Slice is not stable above 12 elements: among numerically equal values of different scale (0.0 vs
+			// 0.000) the implementation's pick is deterministic but not the stable sort's pick the model driver makes.
+			// The theorems hold for every sorted permutation; these cases are judged by the monitors only.
 			tag = append(tag, "len>12")
+			g.EmitImpl(J{"op": op, "f": f, "values": vals, "honest": hidx}, tag...)
+			continue
 		}
 		g.Emit(J{"op": op, "f": f, "values": vals, "honest": hidx}, tag...)
 	}
